@@ -309,6 +309,20 @@ func atomOf(cond ssa.Value, val bool) Atom {
 			if f.Pkg.Pkg.Path() == pkgStream && recvTypeName(f) == "Frame" && f.Name() == "isLegacy" {
 				return Atom{Kind: "legacy", Val: val}
 			}
+			// a predicate on the magic word: f(m) with body `return m == frameMagicLegacy`, called with f.Magic
+			if inModule(f) && len(f.Blocks) == 1 && len(f.Params) == 1 && len(x.Call.Args) == 1 {
+				if r, isR := f.Blocks[0].Instrs[len(f.Blocks[0].Instrs)-1].(*ssa.Return); isR && len(r.Results) == 1 {
+					if bo, isB := r.Results[0].(*ssa.BinOp); isB && (bo.Op == token.EQL || bo.Op == token.NEQ) {
+						for _, pr := range [][2]ssa.Value{{bo.X, bo.Y}, {bo.Y, bo.X}} {
+							if c, ok := constUint(pr[1]); ok && c == 0x184C2102 && pr[0] == ssa.Value(f.Params[0]) {
+								if fp := fieldPathOfLoad(x.Call.Args[0]); strings.HasSuffix(fp, "Frame.Magic") {
+									return Atom{Kind: "legacy", Val: (bo.Op == token.EQL) == val}
+								}
+							}
+						}
+					}
+				}
+			}
 			return Atom{Kind: "call", Name: fname(f), Val: val, V: x}
 		}
 	case *ssa.BinOp:
